@@ -20,6 +20,7 @@ for f in args:
             how = "no-failing-input-found (broken tie)" if ("no-failing-input-found" in m.group(5) and m.group(5).count("VIOLATION") == 1) else "concrete replay"
         e = res.setdefault(m.group(1), {})
         e.setdefault("first_verdict", m.group(3))
+        e.setdefault("first_how", how)
         e["verdict"], e["how"], e["seconds"] = m.group(3), how, int(m.group(4))
         e.setdefault("round", {"1":1,"2":1,"3":1,"4":2,"5":2,"6":3,"7":3,"8":4,"9":4}.get(m.group(1)[-1], 5))
 for k, e in res.items():
